@@ -18,6 +18,8 @@ pub enum ErrK {
     InvalidTag(u8),
     InvalidCollection,
     Io(ErrorKind),
+    /// a variant this harness does not know (the library's error enum was extended) that carries no I/O error
+    Other(String),
 }
 
 #[derive(Clone, Debug, PartialEq, Eq)]
@@ -45,6 +47,7 @@ impl Outcome {
             Outcome::Err(ErrK::InvalidTag(_)) => "invalid-tag",
             Outcome::Err(ErrK::InvalidCollection) => "invalid-collection",
             Outcome::Err(ErrK::Io(_)) => "io",
+            Outcome::Err(ErrK::Other(_)) => "other-error",
             Outcome::PayloadErr(_) => "payload-io",
             Outcome::Panic(_) => "panic",
             Outcome::Hang(_) => "hang",
@@ -57,6 +60,19 @@ pub fn errk(e: &IppParseError) -> ErrK {
         IppParseError::InvalidTag(t) => ErrK::InvalidTag(*t),
         IppParseError::InvalidCollection => ErrK::InvalidCollection,
         IppParseError::IoError(e) => ErrK::Io(e.kind()),
+        // tolerate additions to the library's error enum: an I/O error carried in the source chain keeps its kind
+        #[allow(unreachable_patterns)]
+        other => {
+            let mut src: Option<&(dyn std::error::Error + 'static)> = std::error::Error::source(other);
+            while let Some(e) = src {
+                if let Some(io) = e.downcast_ref::<std::io::Error>() {
+                    return ErrK::Io(io.kind());
+                }
+                src = e.source();
+            }
+            let d = format!("{other:?}");
+            ErrK::Other(d.split(|c: char| !c.is_alphanumeric() && c != '_').next().unwrap_or("").to_string())
+        }
     }
 }
 
